@@ -6,6 +6,9 @@ V = os.path.dirname(os.path.dirname(os.path.abspath(__file__)))
 # id -> (technique, level text, level note, design ref)
 PROOF_NOTE = "Lean 4.33 kernel; axioms propext/Quot.sound/Classical.choice only (audited per run); translator go/extract and the layout interpreter Model/Layout.lean validated against the real IEncode/IDecode by the correspondence run; Go runtime/stdlib modelled (DESIGN.md 2.6)."
 CLAIMED = {
+ "C12": ("Lean 4 theorem over a heap-and-pool model of call histories (decode / encode / String / helpers, caller overwriting every input buffer and reusing outputs): by induction over the history with a separation invariant (results, pool, inputs pairwise disjoint) every returned result keeps its value, given that every primitive hands out fresh storage; per-run `decide` that no decode statement of any regenerated layout keeps a reference into the input; the ownership facts themselves (Writer.Bytes copies out, Reader.ReadNBytes / ReadOptions / ReadTLVs allocate, ParseOptions copies, Stringer builder reset) are hand-written and compared on every run with pointer-overlap and overwrite observations on the implementation; ledger-based history exploration on the real code",
+         "Partial: the theorem is about the model's heap; that Go's allocator returns storage no live object uses, and that bytebufferpool / sync.Pool never hand one buffer to two holders, are assumptions. The tie for the facts is observational (reflect-based pointer overlap of every []byte reachable from a decoded PDU against the input buffer; behavioural overwrite tests for the pooled buffers), plus histories of 400 (1000 thorough) mixed calls with a ledger of deep copies re-verified after every call.",
+         PROOF_NOTE + " Go runtime memory management modelled.", "DESIGN.md 4/C12"),
  "C02": ("Lean 4: field tables of the five protocol documents transcribed by hand (Spec/Tables.lean, from text extracts of doc/*.pdf) with one reference serialiser; theorem that every regenerated layout is its table (`decide` per run) and therefore IEncode = reference serialisation for every fitting field assignment; hand-computed CMPP 2.0 length formulas linearised with Go's fixed-width arithmetic explicit and proved equal to the image size (refuses products that can wrap); header offsets and length prefix as theorems about the reference serialiser; decode of the reference image via the round-trip theorem; three-way correspondence IEncode / independent Go table-driven serialiser / Spec.wire over the count x length grid",
          "Unbounded proof on the model for every PDU type and every fitting field assignment, including every destination count and body length. What is trusted: the transcription of the documents (reviewable: spec-src/*.txt beside Spec/Tables.lean; SMPP responses without body on non-zero status are outside the quantifier) and the binding column. The implementation is compared octet for octet with a second, independent serialiser in Go over the full 256x256 grid (thorough) or its diagonal, edges and 3000 random cells (quick) for every PDU with a list and/or body, and IDecode is run on reference images.",
          PROOF_NOTE + " Command ids of the documents compared with GetCommand() on the implementation.", "DESIGN.md 4/C02"),
